@@ -10,7 +10,7 @@ use serde_json::{json, Value};
 const BASE: u64 = 0x1000;
 const STK: u64 = 0x20000;
 
-const ITEMS: [(&str, &[u8]); 11] = [
+const ITEMS: [(&str, &[u8]); 14] = [
     ("mov rax,0x1234", &[0x48, 0xC7, 0xC0, 0x34, 0x12, 0, 0]),
     ("add rax,rbx", &[0x48, 0x01, 0xD8]),
     ("adc rbx,rcx", &[0x48, 0x11, 0xCB]),
@@ -22,12 +22,28 @@ const ITEMS: [(&str, &[u8]); 11] = [
     ("brk(0) via handler", &[0x48, 0xC7, 0xC0, 12, 0, 0, 0, 0x48, 0xC7, 0xC7, 0, 0, 0, 0, 0x0F, 0x05]),
     ("xor edx,edx; div rcx", &[0x31, 0xD2, 0x48, 0xF7, 0xF1]),
     ("int3", &[0xCC]),
+    // faulting accesses through a register: their error texts describe the machine (hints,
+    // area lists, call stack) and are part of the compared result
+    ("mov rax,[rbx]", &[0x48, 0x8B, 0x03]),
+    ("mov [rbx],rcx", &[0x48, 0x89, 0x0B]),
+    ("jmp rbx", &[0xFF, 0xE3]),
 ];
+
+pub const VARIANTS: usize = 5;
+const ALIAS: u64 = 0x0dea_d000;
+
+fn vname(variant: usize) -> &'static str {
+    match variant {
+        0 | 1 => "A(all-registers-written)",
+        2 | 3 => "B(only-rax-rbx-rcx-rsp-written)",
+        _ => "C(all-registers-hold-one-value)",
+    }
+}
 
 pub fn n_cases(maxlen: usize) -> usize {
     let mut n = 0;
     for len in 1..=maxlen {
-        n += ITEMS.len().pow(len as u32) * 4;
+        n += ITEMS.len().pow(len as u32) * VARIANTS;
     }
     n
 }
@@ -46,19 +62,22 @@ fn program(idx: usize, len: usize) -> (Vec<u8>, Vec<&'static str>) {
     (code, names)
 }
 
-/// variant 0/1: A (every register written) with rcx = 0 / 5; 2/3: B (only RAX RBX RCX RSP)
+/// variant 0/1: A (every register written) with rcx = 0 / 5; 2/3: B (only RAX RBX RCX RSP);
+/// 4: C (every general-purpose register holds the same unmapped address, RSP excepted)
 fn build(code: &[u8], variant: usize) -> Axecutor {
     let mut ax = Axecutor::new(code, BASE, BASE).unwrap();
     ax.mem_init_zero(STK, 0x200).unwrap();
-    if variant < 2 {
+    if variant < 2 || variant == 4 {
         for k in 0..16 {
-            ax.reg_write_64(crate::emu::GPR64[k], 0x100 + k as u64).unwrap();
+            ax.reg_write_64(crate::emu::GPR64[k], if variant == 4 { ALIAS } else { 0x100 + k as u64 }).unwrap();
             ax.reg_write_128(crate::emu::XMM[k], 0x200 + k as u128).unwrap();
         }
     }
-    ax.reg_write_64(SR::RAX, 7).unwrap();
-    ax.reg_write_64(SR::RBX, u64::MAX).unwrap();
-    ax.reg_write_64(SR::RCX, if variant % 2 == 0 { 0 } else { 5 }).unwrap();
+    if variant != 4 {
+        ax.reg_write_64(SR::RAX, 7).unwrap();
+        ax.reg_write_64(SR::RBX, u64::MAX).unwrap();
+        ax.reg_write_64(SR::RCX, if variant % 2 == 0 { 0 } else { 5 }).unwrap();
+    }
     ax.reg_write_64(SR::RSP, STK + 0x100).unwrap();
     ax.verif_set_rflags(0);
     ax.handle_syscalls(vec![Syscall::Brk, Syscall::Exit]).unwrap();
@@ -114,7 +133,7 @@ fn run_one(code: &[u8], variant: usize) -> Digest {
         Err(p) => format!("Panic({}: {})", p.loc, p.msg),
     };
     let mut regs = crate::common::Fp::new();
-    let written: Vec<SR> = if variant < 2 {
+    let written: Vec<SR> = if variant < 2 || variant == 4 {
         crate::emu::GPR64.to_vec()
     } else {
         vec![SR::RAX, SR::RBX, SR::RCX, SR::RSP]
@@ -123,7 +142,7 @@ fn run_one(code: &[u8], variant: usize) -> Digest {
         regs.u64(ax.reg_read_64(r).unwrap());
     }
     regs.u64(crate::emu::rip(&ax));
-    if variant < 2 {
+    if variant < 2 || variant == 4 {
         for x in crate::emu::xmms(&ax) {
             regs.u64(x as u64);
             regs.u64((x >> 64) as u64);
@@ -173,7 +192,7 @@ pub fn enumerate(maxlen: usize, mut f: impl FnMut(usize, &[&'static str], usize,
         let total = ITEMS.len().pow(len as u32);
         for idx in 0..total {
             let (code, names) = program(idx, len);
-            for variant in 0..4 {
+            for variant in 0..VARIANTS {
                 let d = [run_one(&code, variant), run_one(&code, variant), run_one(&code, variant)];
                 f(k, &names, variant, &d, &code);
                 k += 1;
@@ -222,7 +241,7 @@ pub fn run(tier: Tier) -> i32 {
         let mut keys = vec![];
         enumerate(maxlen, |kk, _names, variant, d, _code| {
             if kk == k {
-                let vname = if variant < 2 { "A(all-registers-written)" } else { "B(only-rax-rbx-rcx-rsp-written)" };
+                let vname = vname(variant);
                 for m in 1..3 {
                     if d[m] != d[0] {
                         keys.push(format!("determinism|in-process|{vname}|{}", d[0].diff(&d[m])));
@@ -253,7 +272,7 @@ pub fn run(tier: Tier) -> i32 {
         cases += 1;
         transitions += d[0].count * 4;
         distinct.insert(d[0].hash());
-        let vname = if variant < 2 { "A(all-registers-written)" } else { "B(only-rax-rbx-rcx-rsp-written)" };
+        let vname = vname(variant);
         if samples.len() < 2 && k % 501 == 7 {
             samples.push(json!({"program": names, "variant": vname, "result": crate::emu::first_line(&d[0].result), "instructions": d[0].count}));
         }
@@ -285,7 +304,7 @@ pub fn run(tier: Tier) -> i32 {
     run.cov("traces_validated_against_impl", json!(cases * 4));
     run.cov("evaluations", json!(cases));
     run.cov("distinct_nontrivial", json!(distinct.len()));
-    run.cov("rule", json!("one case = (program of <= L items over 11 instructions/idioms incl. brk via the built-in handler, a division whose divisor may be zero, int3; variant A: every register written, variant B: only RAX RBX RCX RSP written, the alphabet never reads another register before writing it); every case runs on 3 independently constructed machines in this process and once in a separately exec'd process; digests of registers, flags, every area, count, trace, call stack, their renderings, result and error text must be equal; distinct_nontrivial = distinct digests"));
+    run.cov("rule", json!("one case = (program of <= L items over 14 instructions/idioms incl. brk via the built-in handler, a division whose divisor may be zero, int3, a load, a store and a jump through RBX that fault when RBX is unmapped; variant A: every register written, variant B: only RAX RBX RCX RSP written, the alphabet never reads another register before writing it, variant C: every general-purpose register holds the same unmapped address); every case runs on 3 independently constructed machines in this process and once in a separately exec'd process; digests of registers, flags, every area, count, trace, call stack, their renderings, result and error text must be equal; distinct_nontrivial = distinct digests"));
     run.cov("exhaustive", json!(true));
     run.cov("program_max_length", json!(maxlen));
     run.cov("machines_per_case", json!(4));
